@@ -1,7 +1,8 @@
 // C18 (scheduled half) — queue-specific data and dispatch_assert_queue follow the target chain
 //
 // variant = hierarchy shape x key placement x submission path x assertion mode
-//   shapes:  0: S0   1: S1>S0   2: C2>S1>S0   3: C1>S0   4: S2>C1>S0   5: S1>W0   6: C2>S1>W0   (S serial, C concurrent, W workloop)
+//   shapes:  0: S0   1: S1>S0   2: C2>S1>S0   3: C1>S0   4: S2>C1>S0   5: S1>W0   6: C2>S1>W0   7: S1>M   8: C2>S1>M
+//            (S serial, C concurrent, W workloop, M the main queue: thread 0 sits in dispatch_main(), a client thread submits)
 //   placement: bit i set = key K has a value on level i (value 'a'+i); nearest level from the top wins
 //   paths: async, sync, barrier_async, barrier_sync, async_and_wait, apply(2), block async
 //   assertion mode: 0 = every assert that must hold is executed (dispatch_assert_queue on each queue of
@@ -10,9 +11,9 @@
 #include "hcommon.h"
 #include <dispatch/private.h>
 
-static const int DEPTH[] = { 1, 2, 3, 2, 3, 2, 3 };
-#define NSHAPE 7
-static const char *const SHAPE[] = { "S0", "S1>S0", "C2>S1>S0", "C1>S0", "S2>C1>S0", "S1>W0 (workloop at the bottom)", "C2>S1>W0 (workloop at the bottom)" };
+static const int DEPTH[] = { 1, 2, 3, 2, 3, 2, 3, 2, 3 };
+#define NSHAPE 9
+static const char *const SHAPE[] = { "S0", "S1>S0", "C2>S1>S0", "C1>S0", "S2>C1>S0", "S1>W0 (workloop at the bottom)", "C2>S1>W0 (workloop at the bottom)", "S1>M (main queue at the bottom)", "C2>S1>M (main queue at the bottom)" };
 static const char *const PATH[] = { "dispatch_async_f", "dispatch_sync_f", "dispatch_barrier_async_f", "dispatch_barrier_sync_f", "dispatch_async_and_wait_f", "dispatch_apply_f(2)", "dispatch_async of a block" };
 #define NPATH 7
 typedef struct { int shape, mask, path, mode; } var;
@@ -65,6 +66,8 @@ static void item_fn(void *ctx) { (void)ctx; body(0); }
 static void apply_fn(void *ctx, size_t i) { (void)ctx; body((int)i); }
 static void warm_fn(void *c) { *(int *)c = 1; }
 static char VAL[3] = { 'a', 'b', 'c' };
+static void submit(dispatch_queue_t top);
+static void submit_and_end(void *top);
 
 static int nvariants(void) { build(); return NV; }
 static void describe(int vi, char *b, size_t n)
@@ -86,14 +89,27 @@ static void run(int vi)
 	int depth = DEPTH[v->shape];
 	vx_set_horizon(12ull * 1000000000ull);
 	X = dispatch_queue_create("vx.spec.x", NULL);
-	Q[0] = v->shape >= 5 ? (dispatch_queue_t)dispatch_workloop_create("vx.spec.0") : dispatch_queue_create("vx.spec.0", NULL);
+	Q[0] = v->shape >= 7 ? dispatch_get_main_queue() : v->shape >= 5 ? (dispatch_queue_t)dispatch_workloop_create("vx.spec.0") : dispatch_queue_create("vx.spec.0", NULL);
 	if (depth >= 2) Q[1] = dispatch_queue_create_with_target("vx.spec.1", (v->shape == 3 || v->shape == 4) ? DISPATCH_QUEUE_CONCURRENT : DISPATCH_QUEUE_SERIAL, Q[0]);
 	if (depth >= 3) Q[2] = dispatch_queue_create_with_target("vx.spec.2", (v->shape == 4) ? DISPATCH_QUEUE_SERIAL : DISPATCH_QUEUE_CONCURRENT, Q[1]);
 	for (int i = 0; i < depth; i++) if (v->mask & (1 << i)) dispatch_queue_set_specific(Q[i], &KEY, &VAL[i], NULL);
 	dispatch_queue_set_specific(X, &KEY, &VAL[0], NULL);   // must never be seen from the hierarchy
 	dispatch_queue_t top = Q[depth - 1];
+	if (v->shape >= 7) {
+		// the main queue only drains once thread 0 has entered dispatch_main(): a client thread submits and ends the execution
+		vx_focus_begin();
+		vx_thread(submit_and_end, top);
+		dispatch_main();
+	}
 	int d = 0; dispatch_async_f(top, &d, warm_fn); int *a[2] = { &d, (int *)(intptr_t)1 }; vx_wait_until(pred_int_ge, a);
 	vx_focus_begin();
+	submit(top);
+	vx_focus_end();
+}
+
+static void submit(dispatch_queue_t top)
+{
+	const var *v = g_v;
 	int want = 1;
 	switch (v->path) {
 	case 0: dispatch_async_f(top, NULL, item_fn); break;
@@ -106,8 +122,8 @@ static void run(int vi)
 	}
 	int *b[2] = { &g_done, (int *)(intptr_t)want };
 	vx_wait_until(pred_int_ge, b);
-	vx_focus_end();
 }
+static void submit_and_end(void *top) { submit(top); vx_end(); }
 
 static int check(int vi, const vx_log *l, char *msg, size_t len)
 {
